@@ -47,10 +47,11 @@ def main():
     ap.add_argument("--demo-files", nargs="*", default=[])
     ap.add_argument("--needs", default="")
     ap.add_argument("--skip-validate", action="store_true")
+    ap.add_argument("--as", dest="as_k", default=None, help="store as seeded/<Cxx>-<as>")
     a = ap.parse_args()
     src = os.path.join(a.mutdir, a.k)
     patch = os.path.join(src, "patch.diff")
-    sid = "%s-%s" % (a.pid, a.k)
+    sid = "%s-%s" % (a.pid, a.as_k or a.k)
     dst = os.path.join("/verif/seeded", sid)
     meta = {"property": a.pid, "source": "independent sub-agent (given only the property text and a scratch worktree)", "needs": a.needs,
             "demo_cmd": a.demo, "ran": []}
